@@ -79,7 +79,9 @@ struct Case {
     derive_first: bool,
 }
 
-const KINDS: [(&str, usize); 17] = [
+const KINDS: [(&str, usize); 18] = [
+    // data-carrying variants with explicit discriminants (legal under a primitive repr)
+    ("repr-enum-with-discriminants", 4),
     // tuple structs whose where-clause comes after the field list and itself contains bracketed / parenthesised groups
     ("generic-tuple-struct-where-groups", 2), ("generic-tuple-struct-where-fn-bound", 1),
     ("named-struct", 2), ("tuple-struct", 2), ("unit-struct", 0), ("enum", 6), ("union", 2), ("alias", 0), ("const", 0), ("generic-struct", 2), ("generic-enum", 3),
@@ -141,6 +143,16 @@ fn module_src(c: &Case, with: bool) -> (String, Option<String>) {
         "const-pub-in-path" => (format!("{ts}\n#[verif_dump]\npub(in crate) const SUBJECT: u32 = 5;\n"), None),
         "static-like-const-private" => (format!("{ts}\n#[verif_dump]\nconst SUBJECT: &str = \"text\";\n"), None),
         "const" => (format!("{ts}\n#[verif_dump]\npub const SUBJECT: u32 = 5;\n"), None),
+        "repr-enum-with-discriminants" => (
+            format!(
+                "{head}\n#[repr(u8)]\n#[serde(tag = \"type\", content = \"content\")]\npub enum Subject {{\n    Unit = 1,\n    {} Tuple({} u32, {} String) = 4,\n    Named {{ {} gamma: bool }} = 7,\n    Last = 9,\n}}\n",
+                d(0, "v"),
+                d(1, "f"),
+                d(2, "f"),
+                d(3, "f")
+            ),
+            (!any_out && !any_skip).then(|| "vec![Subject::Unit, Subject::Tuple(7, \"b\".to_string()), Subject::Named { gamma: true }, Subject::Last]".to_string()),
+        ),
         "generic-tuple-struct-where-groups" => (
             format!("{head}\n#[serde(bound = \"T: Serialize + serde::de::DeserializeOwned\")]\npub struct Subject<T>({} pub u32, {} pub String, pub std::marker::PhantomData<T>)\nwhere\n    T: Clone + std::fmt::Debug,\n    [T; 2]: Clone,\n    (T, T): Clone;\n", d(0, "t"), d(1, "t")),
             (!any_out && !any_skip).then(|| "vec![Subject::<u32>(7, \"b\".to_string(), std::marker::PhantomData)]".to_string()),
